@@ -390,6 +390,11 @@ def gen_form(rng, big=False, directed=None):
     attrs_pool = list(SPELL) + [c for c in CUSTOM if style == "double" or ":" not in c]
     vis_tops = [ar.name for ar in rows if ar.kind == "q" and ar.path == "/data/" + ar.name and ar.tkey in VISIBLE_TKEYS]
     used_attrs = []
+    # phase 8: in about a third of the forms with nesting, `${name}` may name any element of the form (questions,
+    # groups and repeats at any depth) — the fragment of `binds.model_refs` (Pyxv.Binds composed with Pyxv.Refs)
+    nested = [x.name for x in rows if x.kind in ("q", "begin") and x.name and not x.audit and x.in_loop is None
+              and not x.loop and x.path.count("/") > 2]
+    pool = tops + nested if nested and rng.random() < 0.35 else tops
     for ar in rows:
         if ar.kind == "end":
             continue
@@ -407,7 +412,7 @@ def gen_form(rng, big=False, directed=None):
                     if rng.random() < 0.3:
                         val[None] = gen_value(rng, a, [])  # unsuffixed column as well
                 else:
-                    val = gen_value(rng, a, tops)
+                    val = gen_value(rng, a, pool if ar.in_loop is None else tops)
                 if ar.in_loop is not None:
                     # template cells: plain strings, placeholders for the choice the copy is made for
                     if isinstance(val, dict):
@@ -500,7 +505,8 @@ def gen_form(rng, big=False, directed=None):
     else:
         choices = [{"list_name": ln, "name": n, "label": LABELS[n]} for ln in ("l1", "l2") for n in ("a", "b")]
     form = {"survey": survey, "survey_cols": header, "choices": choices}
-    return form, arows_out, {"tops": [t for t in tops if any(a.name == t for a in arows_out)], "style": style, "cols": cols}
+    return form, arows_out, {"tops": [t for t in tops if any(a.name == t for a in arows_out)], "style": style, "cols": cols,
+                             "deep": pool is not tops}
 
 
 def _referenced(rows):
@@ -632,6 +638,21 @@ def form_case(ctx, form, arows, meta):
     rows = [[[k, v] for k, v in row.items() if v not in (None, "")] for row in form["survey"]]
     m = ctx.driver.call("binds.model", headers=headers, rows=rows, lists=["l1", "l2"], root="data", dl="default")
     ctx.count(f"impl:{r['class']}/model:{m['outcome']}" + (":" + m["why"] if m["outcome"] == "unsupported" else ""))
+    ctx.count("fragment-toplevel-refs:" + ("inside" if m["outcome"] != "unsupported" else "outside"))
+    # phase 8: the composed model (Pyxv.Binds.formBindsR: reference substitution = C03's Refs.insertXpathsText from the
+    # row's own node).  Where the first model answers, the composed one must answer the same (model-to-model);
+    # where only the composed one answers, it is the one compared with the implementation.
+    mr = ctx.driver.call("binds.model_refs", headers=headers, rows=rows, lists=["l1", "l2"], root="data", dl="default")
+    if m["outcome"] != "unsupported":
+        ctx.count("model-refs:same-as-model")
+        if mr != m:
+            ctx.mismatch("Pyxv.Binds.formBinds vs formBindsR (composed with Pyxv.Refs)", case, m, mr)
+    else:
+        ctx.count("model-refs:" + mr["outcome"] + (":" + mr["why"] if mr["outcome"] == "unsupported" else "")
+                  + ("/deep" if meta.get("deep") else ""))
+        m = mr
+    if meta.get("deep"):
+        ctx.count("deep-refs:impl:" + r["class"] + "/model:" + m["outcome"])
     ctx.count("fragment:" + ("inside" if m["outcome"] != "unsupported" else "outside"))
     # model-to-model: Pyxv.Binds' private process_header / process_row against Pyxv.Headers (C08/C13's model)
     hb = ctx.driver.call("binds.headers_bridge", headers=headers, rows=rows, dl="default")
@@ -879,6 +900,9 @@ def replay(ctx, payload, bs):
             m = ctx.driver.call("binds.model", headers=form["survey_cols"], rows=rows, lists=["l1", "l2"], root="data", dl="default")
             if m["outcome"] == "ok" and [[o[0], o[1]] for o in obs] != m["binds"]:
                 ctx.mismatch("bind elements", case, obs, m["binds"])
+            mr = ctx.driver.call("binds.model_refs", headers=form["survey_cols"], rows=rows, lists=["l1", "l2"], root="data", dl="default")
+            if mr["outcome"] == "ok" and [[o[0], o[1]] for o in obs] != mr["binds"]:
+                ctx.mismatch("bind elements (composed model)", case, obs, mr["binds"])
         else:
             ctx.fail(Failure("rejected-wellformed", r["msg"][:200], case))
     return (len(ctx.failures), len(ctx.mismatches)) == before[:2] and ctx.known_seen == before[2]
